@@ -277,7 +277,9 @@ def names(vb: VB, features, group):
     # generic newtypes with bounds x each derive (one per case so a single failing impl is attributable)
     gder = ["Debug", "Clone", "PartialEq", "Eq", "PartialOrd", "Ord", "Hash", "AsRef", "Deref", "Borrow", "Into", "From", "TryFrom", "Default", "IntoIterator", "Display", "FromStr"]
     if full:
-        gder += ["Serialize", "Deserialize", "Arbitrary"]
+        gder += ["Serialize", "Deserialize"]
+    if "arbitrary" in features:
+        gder += ["Arbitrary"]
     for t in gder:
         for (inner, gen, has_val) in (("Vec<X>", "<X: Ord + Clone>", False), ("Vec<X>", "<X: Ord + Clone>", True), ("::std::borrow::Cow<'a, str>", "<'a>", True)):
             der = [t] + PREREQ.get(t, [])
